@@ -17,12 +17,19 @@ type Lexer struct {
 
 	buf    bytes.Buffer
 	offset int
+
+	// inComment is true while a bracketed comment is open, partial after the input ended inside a token
+	// or a bracketed comment.
+	inComment, partial bool
 }
 
 // Token returns the next token.
 func (l *Lexer) Token() (Token, error) {
 	l.offset = l.buf.Len()
-	return l.layoutTextSequence(false)
+	t, err := l.layoutTextSequence(false)
+	// io.EOF is also what the end of the input in the middle of a token looks like.
+	l.partial = err == io.EOF && (l.inComment || l.buf.Len() > l.offset)
+	return t, err
 }
 
 func (l *Lexer) next() (rune, error) {
@@ -282,6 +289,7 @@ func (l *Lexer) commentOpen() (Token, error) {
 	case err != nil:
 		return Token{}, err
 	case r == '*':
+		l.inComment = true
 		return l.commentText(true)
 	default:
 		l.backup()
@@ -295,6 +303,7 @@ func (l *Lexer) commentClose() (Token, error) {
 	case err != nil:
 		return Token{}, err
 	case r == '/':
+		l.inComment = false
 		return l.layoutTextSequence(true)
 	case r == '*':
 		return l.commentClose()
